@@ -66,8 +66,10 @@ func (s *Server) RunUnix(path string, idleTimeout time.Duration, onBound func(st
 		disarm()
 		var t *time.Timer
 		t = time.AfterFunc(d, func() {
+			verifAt("listener.timer", s)
 			mu.Lock()
 			defer mu.Unlock()
+			defer verifAt("listener.timer.done", s)
 			if timer != t {
 				// This timer expired, but it was disarmed (a connection was
 				// registered) or re-armed before this func got the mutex: the
@@ -103,10 +105,12 @@ func (s *Server) RunUnix(path string, idleTimeout time.Duration, onBound func(st
 			}
 			break
 		}
+		verifAt("listener.accepted", s, conn)
 		mu.Lock()
 		active++
 		disarm()
 		mu.Unlock()
+		verifAt("listener.counted", s)
 		wg.Add(1)
 		go func(c net.Conn) {
 			defer wg.Done()
@@ -117,6 +121,7 @@ func (s *Server) RunUnix(path string, idleTimeout time.Duration, onBound func(st
 			if active == 0 && idleTimeout > 0 && !shutdown {
 				arm(idleTimeout)
 			}
+			verifAt("listener.conndone", s)
 			mu.Unlock()
 		}(conn)
 	}
